@@ -12,6 +12,9 @@ and "cutoff ≤ pre-length" are themselves consequences of the builder invariant
 -/
 import MosaikProofs.Build.Invariant
 import MosaikProofs.Sched.Inv
+import MosaikProofs.Sched.Shape
+import MosaikProofs.Sched.Buffer
+import MosaikProofs.Sched.Cached
 namespace Mosaik.Build
 open Mosaik
 
@@ -453,5 +456,115 @@ theorem run_config_wf_flat {ops : List Op} (hv : Valid {} ops) (hf : flatOps ops
     (hc : cacheTriggeringAncestors (build ops).sims orc = .ok out) (until_ maxLoop : Nat) (lazy_ useCache strict : Bool) :
     WFCfg (runCfg out until_ maxLoop lazy_ useCache strict) :=
   run_config_wf hv (flat_uniformT (build_builtOk ops {} builtOk_empty hv) (flatWorld_of_ops hv hf)) hc until_ maxLoop lazy_ useCache strict
+
+/-- the shape hypotheses of the liveness theorems (`WFShape`): delays and scheduled steps have the length of the target's times -/
+theorem run_config_wfShape_of_built {w : World} (h : BuiltOk w) (hU : UniformT w.sims) {orc : List Nat} {out : List SimCfg}
+    (hc : cacheTriggeringAncestors w.sims orc = .ok out) (until_ maxLoop : Nat) (lazy_ useCache strict : Bool) :
+    WFShape (runCfg out until_ maxLoop lazy_ useCache strict) := by
+  have hS := built_shapedT h
+  have hR := built_trigRange h
+  obtain ⟨hreal, _⟩ := anc_table_minimum w.sims orc hS hR hU hc
+  obtain ⟨st, hnd, hout⟩ := cta_out hc
+  have hlen : out.length = w.sims.length := by rw [hout]; simp
+  have hget : ∀ p, p < w.sims.length → out.getD p {} = { w.sim p with trigAnc := st.row p } := by
+    intro p hp; rw [hout, getD_out, if_pos hp]; rfl
+  refine ⟨?_, ?_, ?_⟩
+  · intro x hx tr htr
+    have hx' : x < w.sims.length := hlen ▸ hx
+    change tr ∈ (out.getD x {}).triggers at htr
+    rw [hget x hx'] at htr
+    obtain ⟨h1, h2, _⟩ := h.trig x hx' tr htr
+    show tr.2.2.tiers.length = (out.getD tr.2.1 {}).depth
+    rw [hget _ h1]
+    exact h2.2.1.trans (h.depth _ h1).symm
+  · intro q hq ad had
+    have hq' : q < w.sims.length := hlen ▸ hq
+    change ad ∈ (out.getD q {}).trigAnc at had
+    show ad.2.tiers.length = (out.getD q {}).depth
+    have hl : lookupTI (out.getD q {}).trigAnc ad.1 = some ad.2 := by
+      rw [hget q hq'] at had ⊢
+      exact lookupTI_of_mem_nodup (hnd q) had
+    have hp := hreal q hq' ad.1 ad.2 hl
+    rw [(trigPath_shape hS hp).2, hget q hq']
+    rfl
+  · intro p t ht
+    change t ∈ (out.getD p {}).next0 at ht
+    show t.length = (out.getD p {}).depth
+    by_cases hp : p < w.sims.length
+    · rw [hget p hp] at ht ⊢
+      change t ∈ (w.sim p).next0 at ht
+      show t.length = (w.sim p).depth
+      rcases h.next0 p hp with h0 | h0 | ⟨t0, h0⟩
+      · rw [h0] at ht; cases ht
+      · rw [h0] at ht; rw [List.mem_singleton.mp ht]; simp [TT.zero]
+      · rw [h0] at ht; rw [List.mem_singleton.mp ht]; exact ofWorld_length _ _
+    · rw [hout, getD_out, if_neg hp] at ht
+      cases ht
+
+theorem run_config_wfShape {ops : List Op} (hv : Valid {} ops) (hU : UniformT (build ops).sims) {orc : List Nat} {out : List SimCfg}
+    (hc : cacheTriggeringAncestors (build ops).sims orc = .ok out) (until_ maxLoop : Nat) (lazy_ useCache strict : Bool) :
+    WFShape (runCfg out until_ maxLoop lazy_ useCache strict) :=
+  run_config_wfShape_of_built (build_builtOk ops {} builtOk_empty hv) hU hc until_ maxLoop lazy_ useCache strict
+
+/-! ### scenarios without groups: the hypotheses on pushed and cached connections (`PushOk`, `PullOk`) -/
+
+theorem run_config_pushOk_flat_of_built {w : World} (h : BuiltOk w) (hf : FlatWorld w) {orc : List Nat} {out : List SimCfg}
+    (hc : cacheTriggeringAncestors w.sims orc = .ok out) (until_ maxLoop : Nat) (lazy_ useCache strict : Bool) :
+    PushOk (runCfg out until_ maxLoop lazy_ useCache strict) := by
+  obtain ⟨st, _, hout⟩ := cta_out hc
+  have hlen : out.length = w.sims.length := by rw [hout]; simp
+  have hget : ∀ p, p < w.sims.length → out.getD p {} = { w.sim p with trigAnc := st.row p } := by
+    intro p hp; rw [hout, getD_out, if_pos hp]; rfl
+  have key : ∀ p, p < out.length → ∀ e ∈ (out.getD p {}).push,
+      e.2.1 < w.sims.length ∧ HasShape e.2.2.1 [] [] ∧ ∃ d0, (p, d0) ∈ (out.getD e.2.1 {}).inputDelays ∧ TI.le d0 e.2.2.1 := by
+    intro p hp e he
+    have hp' : p < w.sims.length := hlen ▸ hp
+    rw [hget p hp'] at he
+    obtain ⟨h1, h2, d0, h3, h4⟩ := h.pushOk p hp' e he
+    rw [hf p hp', hf _ h1] at h2
+    refine ⟨h1, h2, d0, ?_, ?_⟩
+    · rw [hget _ h1]; exact lookupTI_mem h3
+    · have hs0 := (h.inShape e.2.1 h1 (p, d0) (lookupTI_mem h3)).2
+      rw [hf p hp', hf _ h1] at hs0
+      exact ⟨hs0.1.trans h2.1.symm, hs0.2.2.trans h2.2.2.symm, hs0.2.1.trans h2.2.1.symm, h4⟩
+  refine ⟨fun p hp e he => ?_, fun p hp e he => ?_, fun p hp e he => (key p hp e he).2.2⟩
+  · show e.2.1 < out.length
+    rw [hlen]; exact (key p hp e he).1
+  · obtain ⟨_, h2, _⟩ := key p hp e he
+    exact ⟨hasShape_flat_cutoff h2, by rw [h2.2.1]; rfl⟩
+
+theorem run_config_pullOk_flat_of_built {w : World} (h : BuiltOk w) (hf : FlatWorld w) {orc : List Nat} {out : List SimCfg}
+    (hc : cacheTriggeringAncestors w.sims orc = .ok out) (until_ maxLoop : Nat) (lazy_ useCache strict : Bool) :
+    PullOk (runCfg out until_ maxLoop lazy_ useCache strict) := by
+  obtain ⟨st, _, hout⟩ := cta_out hc
+  have hlen : out.length = w.sims.length := by rw [hout]; simp
+  have hget : ∀ p, p < w.sims.length → out.getD p {} = { w.sim p with trigAnc := st.row p } := by
+    intro p hp; rw [hout, getD_out, if_pos hp]; rfl
+  have key : ∀ p, p < out.length → ∀ e ∈ (out.getD p {}).pulled,
+      e.1 < w.sims.length ∧ HasShape e.2.1 [] [] ∧ ∃ d0, (e.1, d0) ∈ (out.getD p {}).inputDelays ∧ TI.le d0 e.2.1 := by
+    intro p hp e he
+    have hp' : p < w.sims.length := hlen ▸ hp
+    rw [hget p hp'] at he ⊢
+    obtain ⟨h1, h2, d0, h3, h4⟩ := h.pullOk p hp' e he
+    rw [hf p hp', hf _ h1] at h2
+    refine ⟨h1, h2, d0, lookupTI_mem h3, ?_⟩
+    have hs0 := (h.inShape p hp' (e.1, d0) (lookupTI_mem h3)).2
+    rw [hf p hp', hf _ h1] at hs0
+    exact ⟨hs0.1.trans h2.1.symm, hs0.2.2.trans h2.2.2.symm, hs0.2.1.trans h2.2.1.symm, h4⟩
+  refine ⟨fun p hp e he => ?_, fun p hp e he => ?_, fun p hp e he => (key p hp e he).2.2⟩
+  · show e.1 < out.length
+    rw [hlen]; exact (key p hp e he).1
+  · obtain ⟨_, h2, _⟩ := key p hp e he
+    exact ⟨hasShape_flat_cutoff h2, by rw [h2.2.1]; rfl⟩
+
+/-- scenarios without groups: all four static hypotheses of the data-flow theorems at once -/
+theorem run_config_dataflow_flat {ops : List Op} (hv : Valid {} ops) (hf : flatOps ops = true) {orc : List Nat} {out : List SimCfg}
+    (hc : cacheTriggeringAncestors (build ops).sims orc = .ok out) (until_ maxLoop : Nat) (lazy_ useCache strict : Bool) :
+    WFCfg (runCfg out until_ maxLoop lazy_ useCache strict) ∧ WFShape (runCfg out until_ maxLoop lazy_ useCache strict) ∧
+    PushOk (runCfg out until_ maxLoop lazy_ useCache strict) ∧ PullOk (runCfg out until_ maxLoop lazy_ useCache strict) := by
+  have hb := build_builtOk ops {} builtOk_empty hv
+  have hfw := flatWorld_of_ops hv hf
+  exact ⟨run_config_wf_flat hv hf hc _ _ _ _ _, run_config_wfShape hv (flat_uniformT hb hfw) hc _ _ _ _ _,
+    run_config_pushOk_flat_of_built hb hfw hc _ _ _ _ _, run_config_pullOk_flat_of_built hb hfw hc _ _ _ _ _⟩
 
 end Mosaik.Build
